@@ -33,7 +33,8 @@ Accept(t) ==
        /\ \A i \in 1..Len(t.blocks) : BlockOK(t.blocks[i], t.ro, t.ro + t.rs)
 
 \* what an accepted file guarantees its readers: every extent inside the data area, nothing larger than the file
-Inside(off, size, lo, hi) == off >= lo /\ size >= 0 /\ off + size <= hi
+\* (compared by subtraction: the recorded values are arbitrary, and off + size may not be representable)
+Inside(off, size, lo, hi) == off >= lo /\ size >= 0 /\ off <= hi /\ size <= hi - off
 Safe(t) ==
   LET L == t.M - t.ffs IN
   /\ Inside(t.M - t.ffs, t.ffs, 0, t.M)
